@@ -674,8 +674,9 @@ impl Sys {
                 assert_eq!(a, b, "harness: op index mismatch");
             }
             Ev::StartHeld(spec) => {
+                // (the library future is created now and polled later, see World::start_op_eager)
                 let a = self.m.start(spec.clone());
-                let b = self.w.start_op(spec);
+                let b = self.w.start_op_eager(spec);
                 assert_eq!(a, b, "harness: op index mismatch");
                 self.m.ops[a].held = true;
                 self.w.ops[b].held = true;
